@@ -32,7 +32,8 @@ static int ninj;
 static int sched[256], nsched;          /* forced choices */
 static int made[256], branch[256], nmade;
 static int random_mode; static uint64_t rng;
-static int idle_reached, a_wrote, term_sent, nselect_idle;
+static int idle_reached, a_wrote, term_sent, nselect_idle, nselect_run;
+#define SELECT_STORM 3000               /* a run of the unmodified daemon makes ~100-200 selects; far beyond that it is spinning */
 static long link_clock[SIM_MAXINO];
 
 static void xlog(const char *fmt, ...) { char b[600]; va_list ap; va_start(ap, fmt); int n = vsnprintf(b, sizeof b, fmt, ap); va_end(ap); hbuf_add(&sim_trace, b, n); }
@@ -81,6 +82,9 @@ static void answer_commands(void) {          /* every delivery succeeds at once 
 }
 static int daemon_select(simproc *p, int nfds, fd_set *r, fd_set *w, struct timeval *tv) {
   if (p->idx != 0) return 0;
+  if (++nselect_run == SELECT_STORM) { xlog("X select-storm selects=%d clock=%ld\n", nselect_run, W.clock); term_sent = 1; sim_deliver_signal(p, SIGTERM); }
+  if (nselect_run > SELECT_STORM + 200) { p->exitcode = -98; sim_crash_before = W.ncalls_total + 1; }     /* not even TERM stops it */
+  if (nselect_run <= SELECT_STORM + 200)
   c16_snapshot(p, nfds, r, w, tv);      /* the select preparation's inputs and outputs (SelPrep leg) */
   answer_commands();
   for (int pass = 0; pass < 2; pass++) {
@@ -137,7 +141,7 @@ static int pick_watch(int n, int *idx, const char **what);
 static void run_once(void) {
   world_init();
   sim_globals_restore();
-  idle_reached = a_wrote = term_sent = nselect_idle = 0; nmade = 0; cmdpos[0] = cmdpos[1] = 0;
+  idle_reached = a_wrote = term_sent = nselect_idle = nselect_run = 0; nmade = 0; cmdpos[0] = cmdpos[1] = 0;
   simproc *p0 = sim_proc(0, "qmail-send", 500, 7796, "/");
   simproc *p1 = sim_proc(1, "qmail-clean", 600, 7794, "/");
   sim_fd_sink(p0, 0); sinkid[0] = sim_fd_sink(p0, 1); sinkid[1] = sim_fd_sink(p0, 3);
